@@ -397,6 +397,19 @@ def gen(seed, family=None, knobs=None):
         if rnd_n.random() < 0.5:
             tgt.append("172.31.7.7")
         amap.append(("node-nmap-ping-scan", {"source_node": h, "target_ip_address": tgt}, "valid"))
+    # terminal commands may carry ANY request of the node's own tree, not only file-system ones (own stream, appended after the sampling)
+    rnd_t = random.Random(f"{seed}-terminal-commands-over-the-request-tree")
+    for h in rnd_t.sample(hosts, min(len(hosts), rnd_t.choice([1, 2]))):
+        others = [meta_hosts[x]["ip"] for x in hosts if x != h] or [meta_hosts[h]["ip"]]
+        pool = [["service", "user-session-manager", "remote_login", "admin", "admin", rnd_t.choice(others)],
+                ["service", "user-session-manager", "remote_login", "admin", "wrong", rnd_t.choice(others)],
+                ["service", "user-manager", "add_user", "carol", "c", False],
+                ["service", "user-manager", "change_password", "admin", "admin", "admin"],
+                ["software_manager", "application", "install", "nmap"],
+                ["network_interface", 1, "disable"], ["network_interface", 1, "enable"], ["os", "scan"], ["scan"],
+                ["service", "dns-client", "scan"], ["application", "web-browser", "scan"]]
+        for cmd in rnd_t.sample(pool, rnd_t.randint(2, 4)):
+            amap.append(("node-send-local-command", {"node_name": h, "username": "admin", "password": "admin", "command": cmd}, "valid"))
 
     # ------------------------------------------------------------------ defender: observation space over everything
     requires_scan = {k: rnd.random() < 0.5 for k in ("file_system", "services", "applications")}
